@@ -118,6 +118,11 @@ pub fn gen_compound(s: &mut Source, cfg: &TermCfg, k: Kind, depth: usize) -> Ter
             let r = child(s);
             Term::Cmp(Kind::Node, vec![name, l, r])
         }
+        Kind::Wrap => {
+            let first = gen_term(s, cfg, depth + 1);
+            let second = if s.flag(128) { Term::Cmp(Kind::Pair, vec![gen_term(s, cfg, depth + 1), gen_term(s, cfg, depth + 1)]) } else { Term::Nil };
+            Term::Cmp(Kind::Wrap, vec![first, second])
+        }
         k => {
             let args = (0..k.arity()).map(|_| gen_term(s, cfg, depth + 1)).collect();
             Term::Cmp(k, args)
@@ -233,6 +238,7 @@ pub fn mutate(s: &mut Source, cfg: &TermCfg, u: &Term) -> Term {
                     Kind::Rec => Kind::Pair,
                     Kind::Triple => Kind::Node,
                     Kind::Node => Kind::Triple,
+                    Kind::Wrap => Kind::Pair,
                 };
                 let mut a = a.clone();
                 if *k == Kind::Triple {
